@@ -265,6 +265,25 @@ def integer_arms(F, R):
                      "bad argument (char_code(C, N) with N = 2^70) panics instead of raising representation_error" % (short(p), bad), F.where(p))
                 k += 1
     R.floor("Number::Integer arms in the atom/character primitives", n_arm, 2)
+    # ... and the small-integer arm narrows with a checked conversion too: `n.get_num() as u32` keeps the low 32 bits, so
+    # char_code(C, 4294967393) (2^32 + 97) answers C = a instead of raising representation_error(character_code)
+    n_cast = 0
+    for p in sorted(scope):
+        try:
+            body = F.hir(p)["body"]
+        except AnchorLost:
+            continue
+        k = 0
+        for x in walk(body):
+            if x["k"] == "Cast" and (x.get("ty") in ("u32", "u8", "u16", "i32", "char")) and (x["a"].get("ty") in ("i64", "i128", "u64", "usize", "isize")):
+                if x.get("from_expansion") or any(m[0] in ("fixnum", "cell_as_fixnum") for m in (x.get("mac") or [])):
+                    continue
+                n_cast += 1
+                R.ob("C22:narrowing-cast:%s#%d" % (short(p), k), False,
+                     "%s narrows a %s to %s with `as` (line %s): the cast keeps the low bits, so an out-of-range code is taken for the character its low bits spell instead of "
+                     "raising representation_error" % (short(p), x["a"].get("ty"), x.get("ty"), x["ln"]), F.where(p))
+                k += 1
+    R.notes.append("narrowing `as` casts of machine integers in the atom/character primitives: %d (expected none)" % n_cast)
     R.notes.append("Rust primitives analysed with callees (depth 2, system_calls.rs): %s" % ", ".join(short(p) for p in sorted(scope)))
 
 
